@@ -2,7 +2,7 @@
 (* Trace validation for the colour converter (C07, C08, part of C13).       *)
 (* Every line of the trace is one call of the real bt601::yuv420_to_rgba    *)
 (* recorded by the driver; this module recomputes the result with Yuv.tla.  *)
-EXTENDS Yuv, Json, IOUtils, FiniteSets
+EXTENDS Yuv, Json, IOUtils, FiniteSets, SequencesExt
 Rec == ndJsonDeserialize(IOEnv.TRACE)
 VARIABLE l
 Diag(cls, what, detail) ==
@@ -33,11 +33,10 @@ PictureOk(e) ==
         ELSE IF e.len # 4 * w * h \/ Len(e.out) # w * h
              THEN Diag("IMPL", "yuv-length", [w |-> w, h |-> h, len |-> e.len])
         ELSE LET exp == Convert(w, h, e.y, e.cb, e.cr)
-                 bad == {k \in 1..(w * h) : e.out[k] # exp[k]}
-             IN  IF bad = {} THEN TRUE ELSE
-                    LET k == MinOf(bad) IN
+                 k == SelectInSeq([j \in 1..(w * h) |-> e.out[j] # exp[j]], LAMBDA b : b)
+             IN  IF k = 0 THEN TRUE ELSE
                     Diag("IMPL", "pairing", [w |-> w, h |-> h, x |-> (k - 1) % w, y |-> (k - 1) \div w,
-                                              got |-> e.out[k], expected |-> exp[k], count |-> Cardinality(bad)])
+                                              got |-> e.out[k], expected |-> exp[k]])
 
 Init == l = 1
 Next == /\ l <= Len(Rec)
